@@ -116,7 +116,7 @@ fn sha256_empty() -> [u8; 32] {
 }
 
 struct Scripted {
-    hops: Vec<(bool, bool, bool)>,
+    hops: Vec<(bool, bool, bool, bool)>,
     calls: std::sync::atomic::AtomicUsize,
     reached_internal: std::sync::atomic::AtomicBool,
 }
@@ -133,13 +133,13 @@ impl c2pa::http::SyncHttpResolver for ScriptedRef {
         if request.uri().host() == Some("127.0.0.1") {
             self.0.reached_internal.store(true, SeqCst);
         }
-        let (redirect, internal, error) = self.0.hops.get(k).copied().unwrap_or((false, false, false));
+        let (redirect, internal, error, relative) = self.0.hops.get(k).copied().unwrap_or((false, false, false, false));
         if error {
             return Err(c2pa::http::HttpResolverError::Other("scripted transport failure".into()));
         }
         let body: Box<dyn std::io::Read> = Box::new(std::io::empty());
         if redirect {
-            let loc = if internal { "http://127.0.0.1/internal".to_string() } else { format!("http://example.com/hop{}", k + 1) };
+            let loc = if internal { "http://127.0.0.1/internal".to_string() } else if relative { format!("/hop{}", k + 1) } else { format!("http://example.com/hop{}", k + 1) };
             Ok(http::Response::builder().status(302).header("location", loc).body(body).unwrap())
         } else {
             Ok(http::Response::builder().status(200).body(body).unwrap())
@@ -251,8 +251,8 @@ fn call(f: &str, a: &[Value]) -> Value {
         // sync vs async twins of the two resolver wrappers on the same script
         "redirect_chain_both" => {
             let allow = a[0].as_bool().unwrap();
-            let hops: Vec<(bool, bool, bool)> = a[1].as_array().unwrap().iter()
-                .map(|h| (h["redirect"].as_bool().unwrap(), h["internal"].as_bool().unwrap(), h["error"].as_bool().unwrap())).collect();
+            let hops: Vec<(bool, bool, bool, bool)> = a[1].as_array().unwrap().iter()
+                .map(|h| (h["redirect"].as_bool().unwrap(), h["internal"].as_bool().unwrap(), h["error"].as_bool().unwrap(), h["relative"].as_bool().unwrap_or(false))).collect();
             let mk = || std::sync::Arc::new(Scripted { hops: hops.clone(), calls: std::sync::atomic::AtomicUsize::new(0), reached_internal: std::sync::atomic::AtomicBool::new(false) });
             let (ts, ta) = (mk(), mk());
             let req = || http::Request::get("http://example.com/start").body(Vec::new()).unwrap();
@@ -282,6 +282,67 @@ fn call(f: &str, a: &[Value]) -> Value {
             Err(e) => json!({"uri_error": e}),
         },
         // PngIO::get_box_map on raw bytes: args = [file bytes (latin-1)]
+        // PNG handler on raw bytes (latin-1 strings): write / remove / read
+        "png_write" => {
+            use c2pa::verif_hooks::{png_io::PngIO, AssetIO};
+            let data: Vec<u8> = s(&a[0]).chars().map(|c| c as u32 as u8).collect();
+            let store: Vec<u8> = s(&a[1]).chars().map(|c| c as u32 as u8).collect();
+            let h = PngIO::new("png");
+            let mut inp = std::io::Cursor::new(data);
+            let mut out = std::io::Cursor::new(Vec::new());
+            let r = h.get_writer("png").unwrap().write_cai(&mut inp, &mut out, &store);
+            json!({"ok": r.is_ok(), "out": out.into_inner().iter().map(|b| *b as char).collect::<String>()})
+        }
+        // write then read back (the CRC of the new chunk is not modelled, so validation compares the read-back store and the length)
+        "png_write_read" => {
+            use c2pa::verif_hooks::{png_io::PngIO, AssetIO};
+            let data: Vec<u8> = s(&a[0]).chars().map(|c| c as u32 as u8).collect();
+            let store: Vec<u8> = s(&a[1]).chars().map(|c| c as u32 as u8).collect();
+            let h = PngIO::new("png");
+            let mut inp = std::io::Cursor::new(data);
+            let mut out = std::io::Cursor::new(Vec::new());
+            match h.get_writer("png").unwrap().write_cai(&mut inp, &mut out, &store) {
+                Err(_) => json!({"ok": false, "out": ""}),
+                Ok(()) => {
+                    let bytes = out.into_inner();
+                    let n = bytes.len();
+                    let mut c = std::io::Cursor::new(bytes);
+                    match h.get_reader().read_cai(&mut c) {
+                        Ok(v) => json!({"ok": true, "read_ok": true, "store": v.iter().map(|b| *b as char).collect::<String>(), "len": n}),
+                        Err(_) => json!({"ok": true, "read_ok": false, "store": "", "len": n}),
+                    }
+                }
+            }
+        }
+        "png_remove" => {
+            use c2pa::verif_hooks::{png_io::PngIO, AssetIO};
+            let data: Vec<u8> = s(&a[0]).chars().map(|c| c as u32 as u8).collect();
+            let h = PngIO::new("png");
+            let mut inp = std::io::Cursor::new(data);
+            let mut out = std::io::Cursor::new(Vec::new());
+            let r = h.get_writer("png").unwrap().remove_cai_store_from_stream(&mut inp, &mut out);
+            json!({"ok": r.is_ok(), "out": out.into_inner().iter().map(|b| *b as char).collect::<String>()})
+        }
+        "png_read" => {
+            use c2pa::verif_hooks::{png_io::PngIO, AssetIO};
+            let data: Vec<u8> = s(&a[0]).chars().map(|c| c as u32 as u8).collect();
+            let h = PngIO::new("png");
+            let mut inp = std::io::Cursor::new(data);
+            match h.get_reader().read_cai(&mut inp) {
+                Ok(v) => json!({"ok": true, "store": v.iter().map(|b| *b as char).collect::<String>()}),
+                Err(_) => json!({"ok": false, "store": ""}),
+            }
+        }
+        "png_locations" => {
+            use c2pa::verif_hooks::{png_io::PngIO, AssetIO, HashBlockObjectType};
+            let data: Vec<u8> = s(&a[0]).chars().map(|c| c as u32 as u8).collect();
+            let h = PngIO::new("png");
+            let mut inp = std::io::Cursor::new(data);
+            match h.get_writer("png").unwrap().get_object_locations_from_stream(&mut inp) {
+                Ok(v) => json!({"ok": true, "locs": v.iter().map(|p| json!({"offset": p.offset, "length": p.length, "cai": p.htype == HashBlockObjectType::Cai})).collect::<Vec<_>>()}),
+                Err(_) => json!({"ok": false, "locs": []}),
+            }
+        }
         "png_box_map" => {
             use c2pa::verif_hooks::{png_io::PngIO, AssetBoxHash, AssetIO};
             let data: Vec<u8> = s(&a[0]).chars().map(|c| c as u32 as u8).collect();
@@ -302,6 +363,14 @@ fn call(f: &str, a: &[Value]) -> Value {
                 Err(_) => json!({"variant":"Err","payload":[null]}),
             }
         }
+        // the small BMFF helpers: args = [data (latin-1), start position, amount]
+        "bmff_small_helpers" => {
+            let data: Vec<u8> = s(&a[0]).chars().map(|c| c as u32 as u8).collect();
+            let pos = a[1].as_u64().unwrap();
+            let mk = || { let mut c = std::io::Cursor::new(data.clone()); c.set_position(pos); c };
+            let r = c2pa::verif_hooks::bmff_io::verif_hooks::small_helpers(mk, a[2].as_u64().unwrap());
+            json!({"ok": r.to_vec()})
+        }
         "bmff_ftyp" => {
             let data: Vec<u8> = s(&a[0]).chars().map(|c| c as u32 as u8).collect();
             let mut cur = std::io::Cursor::new(data);
@@ -314,8 +383,8 @@ fn call(f: &str, a: &[Value]) -> Value {
         // real RedirectResolver over a scripted transport: args = [allow_redirects, [{redirect, internal, error}...]]
         "redirect_chain" => {
             let allow = a[0].as_bool().unwrap();
-            let hops: Vec<(bool, bool, bool)> = a[1].as_array().unwrap().iter()
-                .map(|h| (h["redirect"].as_bool().unwrap(), h["internal"].as_bool().unwrap(), h["error"].as_bool().unwrap())).collect();
+            let hops: Vec<(bool, bool, bool, bool)> = a[1].as_array().unwrap().iter()
+                .map(|h| (h["redirect"].as_bool().unwrap(), h["internal"].as_bool().unwrap(), h["error"].as_bool().unwrap(), h["relative"].as_bool().unwrap_or(false))).collect();
             let t = Scripted { hops, calls: std::sync::atomic::AtomicUsize::new(0), reached_internal: std::sync::atomic::AtomicBool::new(false) };
             let tref = std::sync::Arc::new(t);
             let req = http::Request::get("http://example.com/start").body(Vec::new()).unwrap();
